@@ -15,10 +15,13 @@ import (
 	"fmt"
 	"io"
 	"math/rand"
+	"net"
 	"net/http"
 	"net/url"
+	"os"
 	"reflect"
 	"strings"
+	"syscall"
 	"time"
 
 	"github.com/charmbracelet/log"
@@ -130,6 +133,8 @@ func (x *chainExec) marker() string {
 		return "assignment to entry in nil map"
 	case "abort":
 		return "abort Handler"
+	case "epipe":
+		return "broken pipe"
 	}
 	return "PANICMARK"
 }
@@ -142,6 +147,9 @@ func (x *chainExec) panicVal() interface{} {
 		return struct{ A string }{"PANICMARK struct"}
 	case "abort":
 		return http.ErrAbortHandler
+	case "epipe":
+		// an error of the network stack (a broken connection - to the client or to anything else the handler talks to)
+		return fmt.Errorf("upstream: %w", &net.OpError{Op: "write", Net: "tcp", Err: os.NewSyscallError("write", syscall.EPIPE)})
 	}
 	return "PANICMARK string"
 }
@@ -400,6 +408,34 @@ func (x *chainExec) handler(h int) flamego.Handler {
 			}
 			return &s
 		}
+	case "ptr_bytes":
+		return func(c flamego.Context) *[]byte {
+			if !x.run(h, c) || s == "" {
+				return nil
+			}
+			b := []byte(s)
+			return &b
+		}
+	case "any_string":
+		return func(c flamego.Context) interface{} {
+			if !x.run(h, c) {
+				return nil
+			}
+			return s
+		}
+	case "any_bytes":
+		return func(c flamego.Context) interface{} {
+			if !x.run(h, c) || s == "" {
+				return nil
+			}
+			return []byte(s)
+		}
+	case "int_ptr_bytes":
+		return func(c flamego.Context) (int, *[]byte) {
+			x.run(h, c)
+			b := []byte(s)
+			return r.Code, &b
+		}
 	case "int_string":
 		if noCtx && x.v.Fast == 1 {
 			return func() (int, string) { // the built-in fast path for func() (int, string)
@@ -514,7 +550,7 @@ func chainVarFor(c *chainCase, idx int) cVar {
 	rng := rand.New(rand.NewSource(int64(idx)*7919 + int64(envInt("VERIF_SEED", 1))))
 	n := c.N
 	v := cVar{Env: []string{"development", "production", "test"}[rng.Intn(3)],
-		PK: []string{"string", "error", "runtime", "struct", "abort", "deepnosrc", "hook"}[rng.Intn(7)], Fast: rng.Intn(3), Reqs: 1 + rng.Intn(2)}
+		PK: []string{"string", "error", "runtime", "struct", "abort", "deepnosrc", "hook", "epipe"}[rng.Intn(8)], Fast: rng.Intn(3), Reqs: 1 + rng.Intn(2)}
 	v.Der = rng.Intn(2) == 0
 	v.DL = v.Der && rng.Intn(2) == 0
 	v.WK = rng.Intn(6)
@@ -688,6 +724,8 @@ var chainRetPool = []cRet{
 	{Shape: "int_bytes", Code: 204}, {Shape: "int_error", Code: 418, Err: "teapot"}, {Shape: "int_error", Code: 200},
 	{Shape: "string_error", S: "s"}, {Shape: "string_error", S: "s", Err: "e"}, {Shape: "string_error"},
 	{Shape: "bytes_error", S: "b"}, {Shape: "bytes_error", Err: "e2"},
+	{Shape: "ptr_bytes", S: "pb"}, {Shape: "ptr_bytes"}, {Shape: "ptr_string"}, {Shape: "any_string", S: "as"}, {Shape: "any_bytes", S: "ab"}, {Shape: "any_string"},
+	{Shape: "int_ptr_bytes", Code: 202, S: "ipb"},
 	{Shape: "error", Err: "<zero-struct>"}, {Shape: "int_error", Code: 503, Err: "<zero-int>"}, {Shape: "string_error", S: "s", Err: "<typed-nil>"},
 	{Shape: "bytes_error", Err: "<zero-struct>"}, {Shape: "error", Err: "<typed-nil>"}, {Shape: "string_error", Err: "<zero-int>"},
 }
